@@ -206,6 +206,17 @@ func leafDiskpacked(max int) func(e *Env, prefix string) error {
 	}
 }
 
+func leafDiskpackedMemIndex(max int) func(e *Env, prefix string) error {
+	return func(e *Env, prefix string) error {
+		args := mk{"path": e.Dir("dp"), "metaIndex": mk{"type": "memory"}}
+		if max > 0 {
+			args["maxFileSize"] = max
+		}
+		_, err := e.At(prefix, "diskpacked", args)
+		return err
+	}
+}
+
 type leafFn func(e *Env, prefix string) error
 
 func single(name string, lf leafFn, removes, memOnly bool) Spec {
@@ -405,6 +416,7 @@ func Specs(thorough bool) []Spec {
 		single("diskpacked-max1", leafDiskpacked(1), true, false),
 		single("diskpacked-max100k", leafDiskpacked(100<<10), true, false),
 		single("diskpacked-default", leafDiskpacked(0), true, false),
+		single("diskpacked-memindex-max100k", leafDiskpackedMemIndex(100<<10), true, false),
 		blobpacked("blobpacked", leafMem, leafMem, true),
 		encrypt("encrypt", leafMem, leafMem, false),
 		replica("replica2", 2, leafMem, nil, true),
